@@ -215,6 +215,9 @@ func embedAll(r *core.Rng, ec *exifCase, big bool) []embedded {
 		for k := r.Range(0, 3); k > 0; k-- {
 			segs = append(segs, gen.RandOtherSeg(r, 500))
 		}
+		if r.Chance(1, 8) {
+			segs[r.Intn(len(segs))].Fill = r.Pick(1, 2, 3)
+		}
 		j := gen.BuildJPEG(r, segs, r.Range(64, 400))
 		out = append(out, embedded{name: "JPEG", bytes: j.Bytes, it: 1, decs: []decodeFn{dDecode, dDecodeJPEG}})
 	}
